@@ -788,6 +788,32 @@ def np_tile(eng, st, args, kw, node):
     return Mat((reps[0], r.n), lambda x, y, r=r: r.fn(y), r.esort)
 
 
+def np_repeat(eng, st, args, kw, node):
+    """np.repeat(M, k, axis) for a 2-D M whose extent along `axis` is 1: k copies of that single column (axis=1) / row (axis=0)."""
+    if kw or len(args) != 3 or ndim_of(eng, st, args[0]) != 2 or not isinstance(args[2], int):
+        raise OutOfSubset('np.repeat form')
+    m = as_mat(eng, st, args[0])
+    ax = args[2]
+    ext = z3.simplify(to_z3(m.shape[ax], INT))
+    if not (z3.is_int_value(ext) and ext.as_long() == 1):
+        raise OutOfSubset('np.repeat along an axis whose extent is not 1')
+    k = args[1]
+    if ax == 1:
+        return Mat((m.shape[0], k), lambda x, y, m=m: m.fn(x, z3.IntVal(0)), m.esort)
+    return Mat((k, m.shape[1]), lambda x, y, m=m: m.fn(z3.IntVal(0), y), m.esort)
+
+
+def np_stack(eng, st, args, kw, node):
+    """np.stack([A, B], 2) of two equally shaped matrices: only the reductions over the new last axis are modelled (np.min)."""
+    ax = kw.get('axis', args[1] if len(args) > 1 else 0)
+    items = args[0]
+    if not (isinstance(items, (tuple, list)) and len(items) == 2 and ax == 2 and all(ndim_of(eng, st, t) == 2 for t in items)):
+        raise OutOfSubset('np.stack form')
+    a, b = as_mat(eng, st, items[0]), as_mat(eng, st, items[1])
+    eng.oblige(st, 'shape/np.stack-operands-agree', z3.And(to_z3(a.shape[0], INT) == to_z3(b.shape[0], INT), to_z3(a.shape[1], INT) == to_z3(b.shape[1], INT)), kind='safety')
+    return Opaque('stack3', items=(a, b))
+
+
 def np_outer(eng, st, args, kw, node):
     a, b = as_row(eng, st, args[0]), as_row(eng, st, args[1])
     return Mat((a.n, b.n), lambda x, y, a=a, b=b: eng.binop(ast.Mult(), a.fn(x), b.fn(y), st), REAL if REAL in (a.esort, b.esort) else INT)
@@ -1108,6 +1134,9 @@ def np_argmin(eng, st, args, kw, node):
 
 def np_min(eng, st, args, kw, node):
     v = args[0]
+    if isinstance(v, Opaque) and v.kind == 'stack3' and kw.get('axis', args[1] if len(args) > 1 else None) == 2:
+        a, b = v.items
+        return Mat(a.shape, lambda x, y, a=a, b=b: z3.If(to_z3(a.fn(x, y), REAL) <= to_z3(b.fn(x, y), REAL), to_z3(a.fn(x, y), REAL), to_z3(b.fn(x, y), REAL)), REAL)
     if isinstance(v, Row) and getattr(v, 'masksel', None) is not None and not kw and len(args) == 1:
         r, mk = v.masksel
         mn = fresh('minsel', r.esort)
@@ -1313,8 +1342,13 @@ def method(eng, st, obj, name, args, kw, node):
         return alloc(st, o.ndim, o.term, o.shape, o.esort, {k: v_ for k, v_ in o.meta.items() if k == 'perm_inv'})
     if name == 'astype':
         t = args[0]
-        if isinstance(t, Opaque) and t.kind == 'builtin' and t.name == 'float':
-            return elementwise(eng, st, lambda q: to_z3(q, REAL), obj) if not _is_real(eng, st, obj) else obj
+        if (isinstance(t, Opaque) and t.kind == 'builtin' and t.name == 'float') or t == 'float':
+            if not _is_real(eng, st, obj):
+                return elementwise(eng, st, lambda q: to_z3(q, REAL), obj)
+            if isinstance(obj, Ref):        # astype copies (copy=True is the default): a fresh array with the same contents
+                o = st.heap[obj.oid]
+                return alloc(st, o.ndim, o.term, o.shape, o.esort)
+            return obj
         if isinstance(t, Opaque) and t.kind == 'builtin' and t.name == 'int':
             raise OutOfSubset('astype(int)')
         raise OutOfSubset('astype')
